@@ -18,7 +18,7 @@ RULE = ('cases = protocol state (6, reached by a canonical prefix on the real lo
         'seeded segmentation; non-trivial = the stream is not a valid PDU sequence under R-codec '
         '(unrecognised, malformed, DIMSE-level garbage or incomplete); distinct = distinct '
         '(state, base, operator, ending)'
-        '; states incl. the release-collision states Sta9-Sta12; floods with a non-consuming user; FIN right behind the last byte; peer-announced maximum 1..6 followed by a local send (real association layer)')
+        '; states incl. the release-collision states Sta9-Sta12; floods with a non-consuming user; FIN right behind the last byte; peer-announced maximum 1..6 followed by a local send (real association layer); reactions judged under FIN right behind the last byte; behind family: valid PDUs + invalid PDU in one segment + FIN')
 ASSUMPTIONS = ['two-branch reaction oracle: a PDU that is malformed under a strict reading may be '
                'treated as invalid (Evt19 row) or leniently as its own type; valid PDUs and '
                'DIMSE-level garbage are only required not to crash/hang and to end orderly',
@@ -104,6 +104,13 @@ def cases(tier, seed):
         for j in range(3 if tier == 'quick' else 40):
             yield dict(state=st, base=BASES_FOR[st][j % len(BASES_FOR[st])], op=['two'],
                        ending='rst', rst_now=True, seed=seed * 100109 + j)
+    # an invalid PDU right behind valid ones in ONE segment, and the peer half-closes right
+    # behind it: the invalid PDU has been received and must still be answered
+    for st in sorted(STATES):
+        for j in range(6 if tier == 'quick' else 80):
+            yield dict(state=st, base=BASES_FOR[st][j % len(BASES_FOR[st])],
+                       op=['behind', 1 + j % 3, ['unknown', 'zero', 'short'][j % 3]],
+                       ending='fin', fin_now=True, one_segment=True, seed=seed * 100153 + j)
     n = 600 if tier == 'quick' else 40000
     states = sorted(STATES)
     for i in range(n):
@@ -132,6 +139,10 @@ def _stream(case):
         for _ in range(rnd.randint(1, 3)):
             b = mutate.apply(b, ('flip', rnd.randrange(len(b)), rnd.randrange(8)))
         return b
+    if op[0] == 'behind':
+        bad = {'unknown': rc.enc_pdu(0x5A, b'junk'), 'zero': rc.enc_pdu(0x00, b''),
+               'short': rc.enc_pdu(0x07, b'\0\0')}[op[2]]
+        return base * op[1] + bad
     if op[0] == 'two':
         ops = mutate.operators(base)
         return mutate.apply(base, rnd.choice(ops)) + mutate.BASES[rnd.choice(sorted(mutate.BASES))]
@@ -332,7 +343,8 @@ def run_case(case):
             if not drv.model.sock_open:
                 return {'violations': [], 'stats': {}, 'skipped': 'expired'}
         # deliver under a seeded segmentation
-        k = rnd.choice([0, 0, 1, 2, 5]) if not case.get('rst_now') else 0
+        k = rnd.choice([0, 0, 1, 2, 5]) if not (case.get('rst_now') or
+                                                 case.get('one_segment')) else 0
         cuts = sorted(rnd.sample(range(1, len(stream)), min(k, len(stream) - 1))) \
             if len(stream) > 1 else []
         prev = 0
@@ -373,7 +385,21 @@ def run_case(case):
         if wrem or 'MALFORMED' in wire_kinds:
             v('emitted-malformed-pdu', 'wire %r rem %r' % (wire_kinds, wrem))
         # two-branch reaction oracle
-        br = _branches(model0, framed) if not fin_now and case['op'][0] != 'flood' else None
+        br = _branches(model0, framed) if not rst_now and case['op'][0] != 'flood' else None
+        if br is not None and fin_now:
+            # the peer has half-closed right behind its last byte (it still reads): every
+            # complete PDU it sent before is reacted to first, then the closing is noticed
+            br2 = []
+            for m, ew, eu in br:
+                if m.sock_open:
+                    exp = {'wire': [], 'user': [], 'ev': 'Evt17'}
+                    m._fsm('Evt17', exp, None, None)
+                    m.sock_open = False
+                    ew = ew + [_wk(e) for e in exp['wire']]
+                    eu = eu + [_uk(e) for e in exp['user']]
+                m.artim = rig.timer_running()       # (not compared in this variant)
+                br2.append((m, ew, eu))
+            br = br2
         judged = br is not None
         if judged:
             obs = (wire_kinds, ind_kinds, rig.state(), rig.sock_gone(), rig.timer_running())
@@ -385,7 +411,8 @@ def run_case(case):
                     break
             if not ok:
                 first_bad = next((c for c in classes if c != 'valid'), 'valid')
-                v('reaction class=%s base=%s' % (first_bad, case['base']),
+                v('reaction class=%s base=%s%s' % (first_bad, case['base'],
+                                                   ' then-fin' if fin_now else ''),
                   'observed wire %r user %r state %s sock_gone %s artim %s\nacceptable: %r\n'
                   'classes %r stream %s' % (wire_kinds, ind_kinds, rig.state(), rig.sock_gone(),
                                             rig.timer_running(),
